@@ -6,14 +6,14 @@ From DA Require Import Base.PyRT Base.Val Model.Sem Proofs.SemBasicP Model.Colum
 Local Open Scope list_scope.
 
 Lemma stage1_correct fl (e : env) d p usg ids q ids' :
-  d_allow_extend_merges d = false -> builder_ok p = true -> stage1 p = true -> wf_env e p ->
+  builder_ok p = true -> stage1 (d_allow_extend_merges d) p = true -> wf_env e p ->
   NoDup (req p usg) -> incl (req p usg) (column_names p) ->
   to_near d p usg ids = Ok (q, ids') ->
   exists T, sem_gen fl p e = Some T /\
     forall C, C <> [] -> NoDup C -> incl C (req p usg) -> qsem fl e q (Some C) = Some (sel C T).
 Proof.
-  intros NM BO St WF Nu Iu H. unfold to_near in H.
-  destruct (gen_stage1 fl e _ d p usg ids q ids' NM BO St WF Nu Iu H) as [T [ET D]].
+  intros BO St WF Nu Iu H. unfold to_near in H.
+  destruct (gen_stage1 fl e _ d p usg ids q ids' BO St WF Nu Iu H) as [T [ET [D _]]].
   exists T. split; [exact ET|]. intros C NC NDC IC.
   assert (incl C (tkeys q)) as ICk by (intros x Hx; apply (dv_incl _ _ _ _ _ D), IC, Hx).
   destruct (dv_sel _ _ _ _ _ D C NC NDC ICk) as [R [E1 [_ [E3 _]]]]. rewrite E1, (E3 IC). reflexivity.
@@ -23,16 +23,16 @@ Lemma sel_width_id K R : cols R = K -> NoDup K -> width_ok R -> sel K R = R.
 Proof. intros E N W. subst K. apply select_cols_id; assumption. Qed.
 
 Lemma stage1_toplevel fl (e : env) d p ids q ids' :
-  d_allow_extend_merges d = false -> builder_ok p = true -> stage1 p = true -> wf_env e p ->
+  builder_ok p = true -> stage1 (d_allow_extend_merges d) p = true -> wf_env e p ->
   to_near d p None ids = Ok (q, ids') ->
   exists T R, sem_gen fl p e = Some T /\ nsem fl q e = Some R /\
     sel (column_names p) R = T /\ incl (column_names p) (cols R) /\ NoDup (cols R) /\
     Permutation (rows (sel (column_names p) R)) (rows T).
 Proof.
-  intros NM BO St WF H. unfold to_near in H.
+  intros BO St WF H. unfold to_near in H.
   pose proof (builder_ok_nodup p BO) as Np.
-  destruct (gen_stage1 fl e _ d p None ids q ids' NM BO St WF Np (incl_refl _) H) as [T [ET D]]. cbn [req] in D.
-  pose proof (stage1_cols_nonempty p BO St) as NE.
+  destruct (gen_stage1 fl e _ d p None ids q ids' BO St WF Np (incl_refl _) H) as [T [ET [D _]]]. cbn [req] in D.
+  pose proof (stage1_cols_nonempty _ p BO St) as NE.
   assert (tkeys q <> []) as NK.
   { destruct (column_names p) as [|c0 t] eqn:E; [congruence|]. intros X. pose proof (dv_incl _ _ _ _ _ D c0 (or_introl eq_refl)) as I. rewrite X in I. destruct I. }
   destruct (dv_sel _ _ _ _ _ D (tkeys q) NK (dv_nodup _ _ _ _ _ D) (incl_refl _)) as [R [E1 [_ [_ E4]]]].
@@ -56,13 +56,13 @@ Proof.
 Qed.
 
 Lemma stage1_row_count fl (e : env) d p usg ids q ids' :
-  d_allow_extend_merges d = false -> builder_ok p = true -> stage1 p = true -> wf_env e p ->
+  builder_ok p = true -> stage1 (d_allow_extend_merges d) p = true -> wf_env e p ->
   NoDup (req p usg) -> incl (req p usg) (column_names p) ->
   to_near d p usg ids = Ok (q, ids') ->
   exists T R, sem_gen fl p e = Some T /\ qsem fl e q (Some []) = Some R /\ List.length (rows R) = List.length (rows T).
 Proof.
-  intros NM BO St WF Nu Iu H. unfold to_near in H.
-  destruct (gen_stage1 fl e _ d p usg ids q ids' NM BO St WF Nu Iu H) as [T [ET D]].
+  intros BO St WF Nu Iu H. unfold to_near in H.
+  destruct (gen_stage1 fl e _ d p usg ids q ids' BO St WF Nu Iu H) as [T [ET [D _]]].
   destruct (dv_nil _ _ _ _ _ D) as [R [E1 E2]]. exists T, R. split; [exact ET|]. split; [exact E1|].
   apply (f_equal (fun t => List.length (rows t))) in E2. simpl in E2. rewrite !map_length in E2. exact E2.
 Qed.
